@@ -152,14 +152,16 @@ def tree_to_coq(n) -> str:
         for k, c in n.children.items():
             key = f'(KIdx {k})' if type(k) is int else f'(KVal {val_to_coq(k)})'
             ch.append(f'({key}, {tree_to_coq(c)})')
-        missing = []
+        # the two sets are handed to the model in the one order a deterministic report can use: sorted by their text
         for m in n.missing:
             if not isinstance(m, str):
                 raise Unsupported('non-str missing')
-            missing.append(coq_str(m))
-        extra = sorted(val_to_coq(x) for x in n.extra)
+        if len({str(x) for x in n.extra}) != len(n.extra):
+            raise Unsupported('unexpected keys with the same text')
+        missing = [coq_str(m) for m in sorted(n.missing)]
+        extra = [val_to_coq(x) for x in sorted(n.extra, key=str)]
         return (f'(EProduct {coq_str(n.expected)} {coq_list(ch)} {val_to_coq(n.actual)} '
-                f'{coq_list(sorted(missing))} {coq_list(extra)})')
+                f'{coq_list(missing)} {coq_list(extra)})')
     if isinstance(n, E.SumErrorNode):
         return f'(ESum {coq_list(tree_to_coq(c) for c in n.children)})'
     raise Unsupported(f'unknown node {type(n).__name__}')
